@@ -191,6 +191,18 @@ theorem selStep_other_length (xs cs : List Val) (i : Nat) (h : cs.length ≠ xs.
     selStep (.list xs) (.idx i) (.tuple cs) = .tuple (cs.map (itemByI i xs.length)) := by
   simp [selStep, itemByI, h, itemByIList_eq_map]
 
+/-- **Everything else is broadcast** (sequences): a companion that holds no list or tuple of the looped
+length, at any depth, is passed whole to every element — whatever else it holds. -/
+theorem selStep_broadcast_seq (xs : List Val) (i : Nat) (c : Val)
+    (h : ∀ q cs, (c.at q = some (.list cs) ∨ c.at q = some (.tuple cs)) → cs.length ≠ xs.length) :
+    selStep (.list xs) (.idx i) c = c ∧ selStep (.tuple xs) (.idx i) c = c := by
+  simp only [selStep]
+  exact ⟨itemByI_no_match i xs.length _ c (Nat.le_refl _) h, itemByI_no_match i xs.length _ c (Nat.le_refl _) h⟩
+
+example : selStep (.list [.cell (.int 1), .cell (.int 2)]) (.idx 1)
+    (.list [.cell (.int 7), .dict [("k", .tuple [.cell (.int 8)])], .cell (.str "ab")]) =
+    .list [.cell (.int 7), .dict [("k", .tuple [.cell (.int 8)])], .cell (.str "ab")] := by decide +kernel
+
 /-- the first argument may be passed by keyword under the name of the function's first parameter -/
 theorem call_first_by_keyword (f : LeafFn) (top : String) (v : Val) (kw : KW)
     (h : top ∉ keysOf kw) :
